@@ -680,22 +680,23 @@ func (e *Exec) assertHolds(cond *smt.Term, label string, kf string, inRegion *sm
 // Explorer
 
 type Explorer struct {
-	P       *Program
-	Harness *ssa.Function
-	Workers []*Worker
-	NWorker int
-	Solver  string
-	Timeout int // per query, ms
-	Tier    int
-	Seed    int64
-	MaxStep int
-	Trace   bool
-	KFOpen  map[string]bool
-	Reverse bool
-	NoFold  bool
-	NoMerge bool
-	MaxViol int
-	NCases  int // sampled completed paths kept for native validation (per worker)
+	P        *Program
+	Harness  *ssa.Function
+	Workers  []*Worker
+	NWorker  int
+	Solver   string
+	Timeout  int // per query, ms
+	Tier     int
+	Seed     int64
+	MaxStep  int
+	Trace    bool
+	KFOpen   map[string]bool
+	Reverse  bool
+	NoFold   bool
+	NoMerge  bool
+	Progress bool
+	MaxViol  int
+	NCases   int // sampled completed paths kept for native validation (per worker)
 
 	mu          sync.Mutex
 	outstanding int
@@ -752,6 +753,13 @@ func (w *Worker) stealFrom() (Item, bool) {
 
 func (x *Explorer) take(w *Worker) (Item, bool) {
 	for {
+		x.mu.Lock()
+		stopped := x.stop
+		x.mu.Unlock()
+		if stopped {
+			x.cond.Broadcast()
+			return Item{}, false
+		}
 		if it, ok := w.popLocal(); ok {
 			return it, true
 		}
@@ -824,6 +832,26 @@ func (x *Explorer) Run() (*Stats, error) {
 	}()
 	x.Workers[0].pushItem(Item{})
 	var wg sync.WaitGroup
+	if x.Progress {
+		stopProg := make(chan struct{})
+		defer close(stopProg)
+		go func() {
+			t0 := time.Now()
+			for {
+				select {
+				case <-stopProg:
+					return
+				case <-time.After(10 * time.Second):
+					n, q := 0, 0
+					for _, w := range x.Workers {
+						n += w.st.Paths
+						q += len(w.local)
+					}
+					fmt.Fprintf(os.Stderr, "    [%s] %.0fs paths=%d pending=%d\n", x.Harness.Name(), time.Since(t0).Seconds(), n, q)
+				}
+			}
+		}()
+	}
 	for _, w := range x.Workers {
 		wg.Add(1)
 		go func(w *Worker) {
